@@ -61,14 +61,14 @@ var c15Sanctioned = map[string][]string{
 	// (the PURL == nil half of the conjunction is not a skip edge by itself: CPE-only entries are kept)
 	"extractor/filesystem/sbom/spdx.Extractor.convertSpdxDocToPackage": {
 		"range-end: param0.Packages",
-		"builtin.len(local:*extractor.Package.Metadata.(*spdx.Metadata).CPEs) == 0 && local:*extractor.Package.Metadata.(*spdx.Metadata).PURL == nil:*github.com/google/osv-scalibr/purl.PackageURL",
+		"builtin.len(local:*spdx.Metadata.CPEs) == 0 && local:*spdx.Metadata.PURL == nil:*github.com/google/osv-scalibr/purl.PackageURL",
 	},
 	"extractor/filesystem/sbom/cdx.enumerateComponents": {
 		"range-end: param0",
 		"extractor/filesystem/sbom/cdx.convertComponentToInventory(param0[ι]) == nil:*github.com/google/osv-scalibr/extractor.Package",
 	},
 	"extractor/filesystem/sbom/cdx.convertComponentToInventory": {
-		"builtin.len(local:*extractor.Package.Metadata.(*cdx.Metadata).CPEs) == 0 && local:*extractor.Package.Metadata.(*cdx.Metadata).PURL == nil:*github.com/google/osv-scalibr/purl.PackageURL",
+		"builtin.len(local:*cdx.Metadata.CPEs) == 0 && local:*cdx.Metadata.PURL == nil:*github.com/google/osv-scalibr/purl.PackageURL",
 	},
 	// an absent document / component list has nothing to import
 	"extractor/filesystem/sbom/cdx.Extractor.convertCdxBomToPackage": {
@@ -427,6 +427,9 @@ func derivesFromRangeOf(v ssa.Value, g *ssa.Global) bool {
 					}
 				}
 			}
+			if lk, ok := x.Tuple.(*ssa.Lookup); ok && x.Index == 0 {
+				return rec(lk, d+1) // v, ok := table[key]
+			}
 		case *ssa.UnOp:
 			return rec(x.X, d+1)
 		case *ssa.Alloc:
@@ -685,8 +688,27 @@ func c15Reference(p *Prog, r *Report) {
 			okN := false
 			for _, call := range callsTo(ec, fp("extractor/filesystem/sbom/cdx"), "", "enumerateComponents") {
 				a := call.Common().Args
-				if s, f, _, ok := fieldOf(loadAddr(loadAddr(a[0]))); ok && s == "Component" && f == "Components" && rootParam(a[0]) == ssa.Value(ec.Params[0]) && a[1] == ssa.Value(ec.Params[1]) && inLoop(call.Block()) {
-					okN = true
+				if s, f, _, ok := fieldOf(loadAddr(loadAddr(a[0]))); ok && s == "Component" && f == "Components" && rootParam(a[0]) == ssa.Value(ec.Params[0]) && inLoop(call.Block()) {
+					if a[1] == ssa.Value(ec.Params[1]) {
+						okN = true // the result list is shared through a pointer
+						continue
+					}
+					// or threaded through: the list passed on is the one received (grown by append or
+					// by earlier recursive calls) and what the call returns is what is returned
+					appendOnly := deriveOpts{throughCall: func(c *ssa.CallCommon) bool { return refOf(c).is("builtin", "", "append") || c.StaticCallee() == ec }}
+					cv, isV := call.(ssa.Value)
+					if !isV || !derivesFrom(a[1], func(v ssa.Value) bool { return v == ssa.Value(ec.Params[1]) }, appendOnly) {
+						continue
+					}
+					all := true
+					for _, ret := range returnsOf(ec) {
+						if len(ret.Results) != 1 || !derivesFrom(ret.Results[0], func(v ssa.Value) bool { return v == cv }, appendOnly) {
+							all = false
+						}
+					}
+					if all {
+						okN = true
+					}
 				}
 			}
 			r.Check(okN, "D3-reference", "enumerateComponents:nested", p.Pos(ec.Pos()), "recurses into each element's nested components with the same result list", "enumerateComponents no longer descends into nested components (or collects them elsewhere)")
